@@ -661,13 +661,14 @@ class Cond:
         return self.kind
 
 
-def resolve_bool(v, op, depth=0):
-    """Resolve a bool operand to a Cond (following single-def copies and Not)."""
+def resolve_bool(v, op, depth=0, at=None):
+    """Resolve a bool operand to a Cond (following single-def copies and Not).
+    `at` is the position where the operand is read (for flow-aware provenance)."""
     if op["k"] == "const":
         return Cond("const", val=op.get("val"))
     pl = op["pl"]
     if pl["p"]:
-        return Cond("place", pl=pl, neg=False)
+        return Cond("place", pl=pl, neg=False, at=at)
     l = pl["l"]
     ds = [d for d in v.defs().get(l, [])]
     # ignore drop-flag style constant defs when there is exactly one non-const def
@@ -675,7 +676,7 @@ def resolve_bool(v, op, depth=0):
     if len(nonconst) != 1 or depth > 6:
         if len(ds) >= 1 and not nonconst:
             return Cond("const", val=None)
-        return Cond("place", pl=pl, neg=False)
+        return Cond("place", pl=pl, neg=False, at=at)
     d = nonconst[0]
     if d[0] == "c":
         t = d[2]
@@ -690,13 +691,13 @@ def resolve_bool(v, op, depth=0):
     if rv["r"] == "bin" and rv["op"] in BIN_CMP:
         return Cond("cmp", op=BIN_CMP[rv["op"]], a=rv["a"], b=rv["b"], ty="prim", block=d[1], site=("s", d[1], d[2]))
     if rv["r"] == "un" and rv["op"] == "Not":
-        c = resolve_bool(v, rv["a"], depth + 1)
+        c = resolve_bool(v, rv["a"], depth + 1, at=(d[1], d[2]))
         return negate(c)
     if rv["r"] == "use" and rv["op"]["k"] in ("copy", "move"):
-        return resolve_bool(v, rv["op"], depth + 1)
+        return resolve_bool(v, rv["op"], depth + 1, at=(d[1], d[2]))
     if rv["r"] == "discr":
-        return Cond("discr", pl=rv["pl"], enum=rv.get("enum"), variants=rv.get("variants"), block=d[1])
-    return Cond("place", pl=pl, neg=False)
+        return Cond("discr", pl=rv["pl"], enum=rv.get("enum"), variants=rv.get("variants"), block=d[1], at=(d[1], d[2]))
+    return Cond("place", pl=pl, neg=False, at=at)
 
 
 def negate(c):
@@ -718,7 +719,7 @@ def switch_conds(v):
         t = v.blocks[b]["t"]
         if t["k"] != "switch":
             continue
-        c = resolve_bool(v, t["discr"])
+        c = resolve_bool(v, t["discr"], at=v.at_term(b))
         out.append((b, c, v.edges_from(b)))
     return out
 
